@@ -61,11 +61,25 @@ Record params := mkParams {
   p_ms_in_s : N                    (* MILLISECONDS_IN_A_SECOND *)
 }.
 
-(* pub fn primary_epoch_reward(&self, epoch_number): u64 >> halvings panics
-   when halvings >= 64 (overflow-checks) *)
-Definition primary_epoch_reward (P : params) (epoch_number : N) : option N :=
+(* pub fn primary_epoch_reward(&self, epoch_number) as it was before the fix:
+   commit 2ebd8bf in /repo: [initial >> halvings] on a u64 panics when
+   halvings >= 64 (overflow-checks) *)
+Definition primary_epoch_reward_old (P : params) (epoch_number : N) : option N :=
   halvings <- div64 epoch_number (p_halving_interval P) ;;
   shr64 (p_initial_primary_epoch_reward P) halvings.
+
+(* u64::checked_shr(h : u32): None when h >= 64 *)
+Definition checked_shr64 (a k : N) : option N := if k <? 64 then Some (N.shiftr a k) else None.
+
+(* pub fn primary_epoch_reward(&self, epoch_number), repaired:
+   u32::try_from(halvings).ok().and_then(|h| initial.checked_shr(h)).unwrap_or(0);
+   the division still panics on a zero halving interval *)
+Definition primary_epoch_reward (P : params) (epoch_number : N) : option N :=
+  halvings <- div64 epoch_number (p_halving_interval P) ;;
+  Some (match (if halvings <? W32 then checked_shr64 (p_initial_primary_epoch_reward P) halvings else None) with
+        | Some r => r
+        | None => 0
+        end).
 
 (* u64::is_multiple_of: rhs = 0 gives self == 0 *)
 Definition is_multiple_of (a b : N) : bool := if b =? 0 then a =? 0 else a mod b =? 0.
